@@ -157,7 +157,10 @@ class Compiler:
 
         # Subquery.
         if isinstance(node, ast.Select):
-            self.table = SubqueryTable(self._compile(node))
+            subquery = self._compile(node)
+            if isinstance(subquery, EvalPivot):
+                raise CompilationError('PIVOT BY is not supported in subqueries', node)
+            self.table = SubqueryTable(subquery)
             return None
 
         # Table reference.
